@@ -489,6 +489,9 @@ class PyInterp:
                 return self._host_call(getattr(base, meth), args, kwargs)
             if isinstance(base, LineStream) and meth in ("read", "readline"):
                 return getattr(base, meth)()
+            if base is dict and meth == "fromkeys":
+                args, kwargs = self._args(c, env)
+                return self._host_call(dict.fromkeys, [list(self._iterate(args[0]))] + args[1:], kwargs) if args else {}
             raise NotEvaluable(f"call of `{u(f)[:40]}`")
         fv = self.eval(f, env)
         if callable(fv):
